@@ -817,3 +817,132 @@ Section Main.
       split; [apply stmt_step; auto|]. split; [apply list_step; auto|]. split; [apply conds_step; auto | exact W].
   Qed.
 End Main.
+
+(* ====================================================================== *)
+(* 6. Whole programs                                                       *)
+(* ====================================================================== *)
+(* reading a cell back as a plain value *)
+Definition reify (h : heap) (l : loc) : option Vm.value :=
+  match hget h l with
+  | Some (HNum f) => Some (Vm.VNum f)
+  | Some (HBool b) => Some (Vm.VBool b)
+  | Some (HStr x) => if is_ascii x then Some (Vm.VStr (Vm.utf8_encode x)) else None
+  | _ => None
+  end.
+Lemma holds_reify h l v : holds h l v <-> reify h l = Some v.
+Proof.
+  unfold reify. split.
+  - intro H. destruct H; rewrite H; auto. rewrite H0, (utf8_ascii _ H0). reflexivity.
+  - destruct (hget h l) as [[f|x|b| | | |]|] eqn:G; try discriminate.
+    + intro Q; inversion Q; apply h_num; auto.
+    + destruct (is_ascii x) eqn:A; [|discriminate]. rewrite (utf8_ascii _ A).
+      intro Q; inversion Q; apply h_str; auto.
+    + intro Q; inversion Q; apply h_bool; auto.
+Qed.
+
+(* the value of a global of the Sem state, read back *)
+Definition sem_global (s : state) (n : str) : option Vm.value :=
+  match frame_get n (st_globals s) with Some l => reify (st_heap s) l | None => None end.
+
+Theorem tie_program (P : program) (p : C.slist) fuel env' s0 :
+  CS.lx_l fuel p [[]] = Some (env', false) ->
+  lrel p (p_stmts P) -> tfrag_l p = true ->
+  good s0 -> st_total s0 = 0%nat -> st_fails s0 = 0%nat ->
+  exists N s1, (forall n, (N <= n)%nat -> run_program n P s0 = (ODone, s1)) /\
+               st_trace s1 = st_trace s0 /\
+               forall n v, CS.slook n env' = Some v -> sem_global s1 n = Some v.
+Proof.
+  intros H Rl Fl G T0 F0.
+  destruct (tie_all P fuel) as (_ & IL & _ & _).
+  assert (R0 : envrel [[]] [] (tickst s0)).
+  { exists [], []. split; [reflexivity|]. split; [constructor|]. intros n v A; discriminate. }
+  destruct (IL p (p_stmts P) [[]] [] (tickst s0) env' false H Rl Fl R0 (good_tickst s0 G))
+    as (N & sig & E' & s1 & Hx & _ & R1 & X & Hlen).
+  destruct E'; [|discriminate].
+  exists N, s1. split; [|split].
+  - intros n Ln. unfold run_program. rewrite (run_tick _ s0 G).
+    rewrite (run_ok _ _ _ _ _ (stmts_mono P N n _ _ _ _ _ Ln Hx)). cbn [ret].
+    destruct X as (_ & _ & Xt & Xtot & Xf). simpl in Xtot, Xf.
+    unfold test_report. rewrite Xtot, T0. simpl. rewrite Xf, F0. reflexivity.
+  - destruct X as (_ & _ & Xt & _). exact Xt.
+  - intros n v A. destruct R1 as (lfs & gf & Eq & F & FG).
+    inversion F; subst. simpl in A.
+    destruct (CS.alook n gf) as [w|] eqn:Q; [|discriminate]. inversion A; subst w.
+    destruct (FG n v Q) as (l & Gl & Hl). unfold sem_global. rewrite Gl. apply holds_reify. exact Hl.
+Qed.
+
+Lemma good_init input ff ay : good (init_state None input ff ay).
+Proof. split; [apply SemStore.wf_init | split; reflexivity]. Qed.
+
+(* ====================================================================== *)
+(* 7. The translation (with every type annotation TNone: Sem.v does not look at them here) *)
+(* ====================================================================== *)
+Fixpoint tr_e (e : C.expr) : expr :=
+  match e with
+  | C.ENum f => ENum f
+  | C.EBool b => EBool b
+  | C.EStr s => EStr s
+  | C.EVar n => EVar n TNone
+  | C.EGroup e1 => EGroup (tr_e e1)
+  | C.EUn C.UMinus e1 => EUn UMinus (tr_e e1)
+  | C.EUn _ e1 => EUn UBang (tr_e e1)
+  | C.EBin op _ _ l r => EBin (match trop op with Some o => o | None => BPlus end) TNone (tr_e l) (tr_e r)
+  | _ => ENum 0%float
+  end.
+
+Fixpoint tr_s (s : C.stmt) : stmt :=
+  match s with
+  | C.SDecl n e => SDecl n TNone (tr_e e)
+  | C.SAssign (C.EVar n) e => SAssign (EVar n TNone) (tr_e e)
+  | C.SBreak => SBreak
+  | C.SIf c b elifs els =>
+      SIf ((tr_e c, tr_l b) :: tr_c elifs) (match els with C.NoElse => None | C.Else eb => Some (tr_l eb) end)
+  | C.SWhile c b => SWhile (tr_e c) (tr_l b)
+  | _ => SNop
+  end
+with tr_l (l : C.slist) : list stmt :=
+  match l with C.SNil => [] | C.SCons s t => tr_s s :: tr_l t end
+with tr_c (l : C.clist) : list (expr * list stmt) :=
+  match l with C.CNil => [] | C.CCons c b t => (tr_e c, tr_l b) :: tr_c t end.
+
+Lemma tr_e_rel : forall e, tfrag_e e = true -> xrel e (tr_e e).
+Proof.
+  fix IH 1. intros e F. destruct e; simpl in F; try discriminate.
+  - constructor.
+  - constructor.
+  - constructor.
+  - constructor.
+  - destruct op; try discriminate; simpl; constructor; apply IH; exact F.
+  - simpl. destruct (trop op) as [o|] eqn:T; [|discriminate]. apply andb_true_iff in F as [F1 F2].
+    apply x_bin; [exact T | apply IH; exact F1 | apply IH; exact F2].
+  - simpl. constructor. apply IH; exact F.
+Qed.
+
+Lemma tr_rel :
+  (forall s, tfrag_s s = true -> srel s (tr_s s)) /\
+  (forall l, tfrag_l l = true -> lrel l (tr_l l)) /\
+  (forall l, tfrag_c l = true -> crel l (tr_c l)).
+Proof.
+  assert (HS : forall s, tfrag_s s = true -> srel s (tr_s s))
+    by (fix IHs 1 with (IHl (l : C.slist) : tfrag_l l = true -> lrel l (tr_l l))
+                       (IHc (l : C.clist) : tfrag_c l = true -> crel l (tr_c l));
+        [ intros s F; destruct s; simpl in F; try discriminate; simpl
+        | intros l F; destruct l; simpl in F |- *; [constructor | apply andb_true_iff in F as [F1 F2]; constructor; auto]
+        | intros l F; destruct l; simpl in F |- *;
+          [constructor | apply andb_true_iff in F as [F1 F3]; apply andb_true_iff in F1 as [F1 F2];
+                         constructor; auto using tr_e_rel] ];
+        [ apply andb_true_iff in F as [F1 F2]; constructor; apply tr_e_rel; auto
+        | destruct target; try discriminate; apply andb_true_iff in F as [F1 F2]; constructor; apply tr_e_rel; auto
+        | apply andb_true_iff in F as [F F4]; apply andb_true_iff in F as [F F3]; apply andb_true_iff in F as [F1 F2];
+          constructor; auto using tr_e_rel; destruct els; constructor; auto
+        | apply andb_true_iff in F as [F1 F2]; constructor; auto using tr_e_rel
+        | constructor | constructor ]).
+  split; [exact HS|]. split.
+  - fix IHl 1. intros l F. destruct l; simpl in F |- *; [constructor|].
+    apply andb_true_iff in F as [F1 F2]. constructor; auto.
+  - assert (HL : forall l, tfrag_l l = true -> lrel l (tr_l l)).
+    { fix IHl 1. intros l F. destruct l; simpl in F |- *; [constructor|].
+      apply andb_true_iff in F as [F1 F2]. constructor; auto. }
+    fix IHc 1. intros l F. destruct l; simpl in F |- *; [constructor|].
+    apply andb_true_iff in F as [F1 F3]. apply andb_true_iff in F1 as [F1 F2]. constructor; auto using tr_e_rel.
+Qed.
